@@ -269,19 +269,25 @@ Definition pool_set_ib (c : cfg) (id : N) (b : ibeh) (p : wpool) : wpool :=
 
 (* Shutdown(it): candidates are the Booting workers of that type that are not held, else the Idle ones;
    Go takes the first in map order, so the choice is a parameter that must be a candidate *)
+Definition shut_ok (it : N) (st : wstate) (w : wkr) : bool :=
+  negb (ibeh_eqb (w_ib w) IHold) && wstate_eqb (w_st w) st && N.eqb (w_it w) it.
 Definition shutdown_candidates (it : N) (p : wpool) : list N :=
-  let ok st w := negb (ibeh_eqb (w_ib w) IHold) && wstate_eqb (w_st w) st && N.eqb (w_it w) it in
-  match filter (ok WBooting) (p_workers p) with
-  | [] => map w_id (filter (ok WIdle) (p_workers p))
+  match filter (shut_ok it WBooting) (p_workers p) with
+  | [] => map w_id (filter (shut_ok it WIdle) (p_workers p))
   | l => map w_id l
   end.
 Definition pool_shutdown (it chosen : N) (p : wpool) : bool * wpool :=
   match shutdown_candidates it p with
   | [] => (false, p)
-  | _ => match find_w chosen (p_workers p) with
-         | None => (false, p)
-         | Some w => let (now, p1) := tick p in (true, set_workers p1 (put_w (w_shutdown now w) (p_workers p1)))
-         end
+  | _ =>
+      match find_w chosen (p_workers p) with
+      | None => (true, p)                           (* not a choice the code can make *)
+      | Some w =>
+          let want := match filter (shut_ok it WBooting) (p_workers p) with [] => WIdle | _ => WBooting end in
+          if shut_ok it want w then
+            let (now, p1) := tick p in (true, set_workers p1 (put_w (w_shutdown now w) (p_workers p1)))
+          else (true, p)                            (* not a choice the code can make *)
+      end
   end.
 
 (* the sweep at the top of every runProbes round: shutdownIfIdle on every worker that is not shut down *)
